@@ -10,7 +10,7 @@ use crate::models::timing::{MC, MD, ME, MS, MT};
 use crate::plan::{Op, Plan};
 use crate::rng::{Fnv, Rng};
 use rosu_map::section::hit_objects::hit_samples::SampleBank;
-use rosu_map::section::timing_points::{ControlPoints, DifficultyPoint, EffectPoint, SamplePoint, TimeSignature, TimingPoint};
+use rosu_map::section::timing_points::{ControlPoint, ControlPoints, DifficultyPoint, EffectPoint, SamplePoint, TimeSignature, TimingPoint};
 
 pub struct C13;
 
@@ -117,8 +117,8 @@ impl Scenario for C13 {
             let k = if rng.chance(1, 2) { kind_bias } else { rng.below(4) };
             match k {
                 0 => Op::new("add_t", &[t, *rng.pick(&[500.0, 300.0, 5.0, 1e6, 500.0, f64::NAN, f64::INFINITY, 0.0, -1.0]), rng.below(2) as f64, *rng.pick(&[4.0, 4.0, 3.0, 7.0])]),
-                1 => Op::new("add_d", &[t, *rng.pick(&[1.0, 2.0, 0.5, 1.0, 0.0, 0.25, 0.25000000000000017, f64::NAN, f64::INFINITY, 2.0, 1.0]), if rng.chance(1, 4) { 0.0 } else { 1.0 }]),
-                2 => Op::new("add_e", &[t, rng.below(2) as f64, *rng.pick(&[1.0, 1.0, 2.0, 0.0, 0.25, 0.25000000000000017, f64::NAN, f64::INFINITY, 2.0, 1.0])]),
+                1 => Op::new("add_d", &[t, *rng.pick(&[1.0, 2.0, 0.5, 1.0, 0.0, 0.25, 0.25000000000000017, f64::NAN, f64::INFINITY, 2.0, 1.0, 0.9999999999999999, 1.0000000000000002, 0.9999999999999998]), if rng.chance(1, 4) { 0.0 } else { 1.0 }]),
+                2 => Op::new("add_e", &[t, rng.below(2) as f64, *rng.pick(&[1.0, 1.0, 2.0, 0.0, 0.25, 0.25000000000000017, f64::NAN, f64::INFINITY, 2.0, 1.0, 0.9999999999999999, 1.0000000000000002, 0.9999999999999998])]),
                 _ => Op::new("add_s", &[t, rng.below(4) as f64, *rng.pick(&[100.0, 50.0, 100.0, 120.0, -5.0, 44.0, 300.0, 356.0]), *rng.pick(&[0.0, 1.0, 0.0, 1.0, -1.0, 2.0, -2.0, 65538.0, 65536.0, 65535.0])]),
             }
         };
@@ -192,6 +192,31 @@ impl Scenario for C13 {
             p.ops.push(scripts[c][pos[c]].clone());
             pos[c] += 1;
         }
+        // one value in eight sits one ulp beside its pool value (equality written with == instead of a tolerance, or
+        // a tolerance written with <= instead of <, shows only there)
+        for op in p.ops.iter_mut() {
+            let vi = match op.k.as_str() {
+                "add_d" => 1,
+                "add_e" => 2,
+                _ => continue,
+            };
+            if rng.chance(1, 8) && op.a[vi].is_finite() && op.a[vi] != 0.0 {
+                let b = op.a[vi].to_bits();
+                op.a[vi] = f64::from_bits(if rng.chance(1, 2) { b + 1 } else { b - 1 });
+            }
+        }
+        // the public ControlPoint trait used directly: the redundancy query on its own, and the insert-or-replace without
+        // the query (what ControlPoints::add composes)
+        if rng.chance(1, 6) {
+            p.faults.push("direct-trait-calls".into());
+            for op in p.ops.iter_mut() {
+                match rng.below(8) {
+                    0 | 1 => op.k = op.k.replace("add_", "chk_"),
+                    2 => op.k = op.k.replace("add_", "raw_"),
+                    _ => {}
+                }
+            }
+        }
         p
     }
     fn execute(&self, plan: &Plan, st: &mut Stats) -> Result<(), Violation> {
@@ -209,6 +234,68 @@ impl Scenario for C13 {
             let t = op.arg(0);
             if t == 0.0 && t.is_sign_negative() {
                 continue; // outside the alphabet (minimiser may produce it)
+            }
+            if op.k.starts_with("chk_") || op.k.starts_with("raw_") {
+                if t.is_nan() {
+                    continue;
+                }
+                let raw = op.k.starts_with("raw_");
+                st.inc(if raw { "ops.direct-trait-add" } else { "ops.direct-redundancy-query" });
+                let verdict = |name: &str, got: bool, want: bool| -> Result<(), Violation> {
+                    if got != want {
+                        return Err(Violation::new("C13/redundancy-query-mismatch", name, format!("op #{i} {}{:?}: check_already_existing returned {got}, the reference says {want}\n collection: {cp:?}", op.k, op.a)));
+                    }
+                    Ok(())
+                };
+                match &op.k[4..] {
+                    "t" => {
+                        let (bl, omit) = (op.arg(1), op.arg(2) != 0.0);
+                        let sig = if op.a.len() > 3 { op.iarg(3).clamp(1, 64) as i32 } else { 4 };
+                        let pt = TimingPoint { time: t, beat_len: bl, omit_first_bar_line: omit, time_signature: TimeSignature::new(sig).unwrap_or_else(|_| TimeSignature::new_simple_quadruple()) };
+                        if raw {
+                            ControlPoint::add(pt, &mut cp);
+                            m.add_t(MT { time: t, beat_len: bl, omit, sig: sig as u32 });
+                        } else {
+                            verdict("timing", pt.check_already_existing(&cp), false)?;
+                        }
+                    }
+                    "d" => {
+                        let (sv, ticks) = (op.arg(1), op.arg(2) != 0.0);
+                        let pt = DifficultyPoint { time: t, slider_velocity: sv, generate_ticks: ticks };
+                        if raw {
+                            ControlPoint::add(pt, &mut cp);
+                            m.raw_d(MD { time: t, sv, ticks });
+                        } else if sv.is_finite() && m.d.iter().all(|q| q.sv.is_finite()) {
+                            verdict("difficulty", pt.check_already_existing(&cp), m.red_d(&MD { time: t, sv, ticks }))?;
+                        }
+                    }
+                    "e" => {
+                        let (kiai, scroll) = (op.arg(1) != 0.0, op.arg(2));
+                        let pt = EffectPoint { time: t, kiai, scroll_speed: scroll };
+                        if raw {
+                            ControlPoint::add(pt, &mut cp);
+                            m.raw_e(ME { time: t, kiai, scroll });
+                        } else if scroll.is_finite() && m.e.iter().all(|q| q.scroll.is_finite()) {
+                            verdict("effect", pt.check_already_existing(&cp), m.red_e(&ME { time: t, kiai, scroll }))?;
+                        }
+                    }
+                    _ => {
+                        let (b, vol, custom) = (op.iarg(1), op.iarg(2) as i32, op.iarg(3) as i32);
+                        let pt = SamplePoint { time: t, sample_bank: bank(b), sample_volume: vol, custom_sample_bank: custom };
+                        if raw {
+                            ControlPoint::add(pt, &mut cp);
+                            m.raw_s(MS { time: t, bank: b.rem_euclid(4) as u8, vol, custom });
+                        } else {
+                            verdict("sample", pt.check_already_existing(&cp), m.red_s(&MS { time: t, bank: b.rem_euclid(4) as u8, vol, custom }))?;
+                        }
+                    }
+                }
+                let has_nan = cp.timing_points.iter().any(|p| p.time.is_nan()) || cp.difficulty_points.iter().any(|p| p.time.is_nan()) || cp.effect_points.iter().any(|p| p.time.is_nan()) || cp.sample_points.iter().any(|p| p.time.is_nan());
+                check_lists(&finite(&cp), &m, i, op)?;
+                if !has_nan {
+                    check_lookup_at(&cp, &m, i, &[t, t - 0.25, t + 0.25, f64::MIN, f64::MAX])?;
+                }
+                continue;
             }
             if t.is_nan() {
                 // hostile operation: a point whose time equals no time. It is applied to the real collection only; the
